@@ -30,6 +30,7 @@ import DisjointImpls.Props.C17
 import DisjointImpls.Lemmas.ExpandItems
 import DisjointImpls.Lemmas.ExpandEmit
 import DisjointImpls.Lemmas.RevSubExact
+import DisjointImpls.Lemmas.OverlapEndToEnd
 open DI
 
 def rToSx : R → Sx
@@ -279,7 +280,9 @@ def handle (cmd : String) (args : List Sx) : Sx :=
           -- hypothesis of C11_partition / C11_acyclic_of_headersWF (shape of the individual headers)
           boolSx (headersWF items),
           -- hypotheses of C02_end_to_end_memberOK / _thetaCovers for nested invocations, per family
-          .list (groups.map (fun e => .list [boolSx (nestedGroupOK (parseEnv items) e), boolSx (nestedCoversB (familyOfGroup [] e))])),
+          .list (groups.map (fun e => .list [boolSx (nestedGroupOK (parseEnv items) e), boolSx (nestedCoversB (familyOfGroup [] e)),
+            -- … and the extra executable hypothesis of C04_end_to_end_flat / _nested
+            boolSx (keysOverHeaderB (familyOfGroup [] e))])),
           -- hypotheses of C03_flat_accepts_exec / C03_flat_acceptance_exact
           boolSx (flatDistinguished items), boolSx (flatSeparated items)]
       | .unableToForm id => .list [.sym "unable", id.toSx, boolSx (noNesting items), boolSx (flatWF items),
